@@ -5,6 +5,33 @@ props = [json.loads(l) for l in open(os.path.join(VERIF, "properties.jsonl"))]
 ids = [p["id"] for p in props]
 
 CHECKS = {
+ "C09": dict(
+   text="Proof (physics) + finite check (interface). props/C09.v proves over Coq's real numbers, for ALL parameter values in the stated "
+        "range: waveguide / thermal shifter phase 2 pi n L / wl (+ pi PS) with |t| = 1 for a real index and power exp(-4 pi Im(n) L/wl) <= 1 "
+        "for a lossy one; phase shifters pi PS, push-pull +/- half with opposite phases; attenuators 10^(-loss/10) resp. c in power and "
+        "passive; mirror powers ref / 1-ref with orthogonal rows (unitary); beam splitter powers ratio / 1-ratio, lossless; 1x2 splitter "
+        "1/2; polarisation rotator a rotation by pi*angle; power reciprocity of the non-symmetric blocks. The implementation is tied to "
+        "these definitions on every run by ONE LEMMA PER SAMPLED MATRIX, proved with the interval tactic: every entry within 1e-9 of the "
+        "real-analytic model (blocks bare and inside a solver, integer-typed arguments included). The interface half (place and wire by "
+        "pin name, solve, str, print_S, show_free_pins, inspect for int and float arguments, every documented block) is an exhaustive "
+        "enumeration of a finite table — finite checking, labelled so.",
+   note="Trusted: Coq kernel; Coq.Reals axioms (ClassicalDedekindReals.sig_forall_dec, sig_not_dec, functional_extensionality_dep, "
+        "Classical_Prop.classic) and what Interval/Flocq/Coquelicot add (listed per theorem and per generated lemma in the evidence); "
+        "hand-written model Blocks.v; harness sampling. User index functions enter as their value. Follows the fixed code (F22-F24). The "
+        "phase argument of BeamSplitter is documented 'in units of pi' but implemented as exp(2 pi i phase); only the power ratios are "
+        "part of the property and the model follows the code.",
+   technique="Coq proof over the reals (all parameter values) + interval-arithmetic lemma per sampled matrix; finite interface table", design="§5 C09"),
+ "C15": dict(
+   text="Proof: props/C15.v (closed), for every solved model (any size, sweep length, non-symmetric matrix, any pin index map) and every "
+        "complex excitation: the reported outputs are S.u with unmentioned pins as zero; superposition (additivity and scaling); a unit "
+        "excitation reads out get_A; T = A * conj A; power mode is the squared modulus of the amplitude read-out; row k of every sweep "
+        "table is the scalar read-out of point k. The tie builds random SolvedModels directly, excites random pin subsets by name and by "
+        "Pin object (results must be identical) and compares get_output, every row of get_full_output, get_data (T, Amplitude), get_A "
+        "and get_T in amplitude and power mode with the model. dB = 10 log10 T and phase = arg A are real-analytic: tied by interval "
+        "arithmetic in the same run.",
+   note="Trusted: Coq kernel + vm_compute; Bignums primitives for the executed instance; model Readout.v tied by sampled correspondence; "
+        "pandas exercised, not verified; for dB/phase the Coq.Reals axioms and Interval. Follows the fixed code (F19).",
+   technique="Coq proof (linearity/definitional laws) + vm_compute correspondence; interval lemmas for dB and phase", design="§5 C15"),
  "C10": dict(
    text="Proof: props/C10.v (closed). For any circuit, any set of monitored components, any schedules of the two parts, any excitation and "
         "EVERY wave solution of the network equations, the read-out has exactly one entry per link between a monitored and a "
